@@ -293,6 +293,56 @@ def oracle_strided(ck, path):
     return None
 
 
+def oracle_layout_modes(ck):
+    """every padding mode of the DWT x the covering set of memory layouts (NHWC, channel / batch slices of larger tensors,
+    channel-major storage, spatial crops; time-major (N,L,C) sequences in 1-D), forward and inverse, float64 and float32:
+    the result equals that of the contiguous copy"""
+    from pytorch_wavelets import DWTForward, DWTInverse, DWT1DForward, DWT1DInverse
+    from ..impl_dwt import layout_views
+    g = np.random.default_rng(2024)
+    for mode in ('zero', 'symmetric', 'reflect', 'periodic', 'periodization'):
+        for dt in (torch.float64, torch.float32):
+            f2 = DWTForward(J=2, wave='db3', mode=mode).to(dt); i2 = DWTInverse(wave='db3', mode=mode).to(dt)
+            f1 = DWT1DForward(J=2, wave='db3', mode=mode).to(dt); i1 = DWT1DInverse(wave='db3', mode=mode).to(dt)
+            x = g.integers(-6, 7, (2, 3, 12, 14)).astype(np.float64)
+            tol = 1e-12 if dt == torch.float64 else 1e-5
+            with torch.no_grad():
+                ref = flat(f2(torch.tensor(x, dtype=dt)))
+                pyr = f2(torch.tensor(x, dtype=dt))
+                refi = i2(pyr)
+            for name, v in layout_views(x, dt):
+                with torch.no_grad():
+                    got = flat(f2(v))
+                sc = max(1.0, max(float(t.abs().max()) for t in ref))
+                if not all(u.shape == w.shape and float((u - w).abs().max()) <= tol * sc for u, w in zip(got, ref)):
+                    ck.fail('DWTForward(db3, %s, J=2, %s): input given as %s (strides %s) gives different values than its contiguous copy' % (mode, dt, name, tuple(v.stride())),
+                            {'oracle': 'layout-modes', 'mode': mode, 'view': name}); return 'diff'
+            for name, v in layout_views(pyr[0].numpy().astype(np.float64), dt):
+                with torch.no_grad():
+                    got = i2((v, pyr[1]))
+                if got.shape != refi.shape or float((got - refi).abs().max()) > tol * max(1.0, float(refi.abs().max())):
+                    ck.fail('DWTInverse(db3, %s, %s): lowpass given as %s gives different values than its contiguous copy' % (mode, dt, name), {'oracle': 'layout-modes', 'mode': mode, 'view': name}); return 'diff'
+            s_ = g.integers(-6, 7, (2, 3, 19)).astype(np.float64)
+            ts = torch.tensor(s_, dtype=dt)
+            views1 = [('time-major (N,L,C) storage', torch.tensor(np.ascontiguousarray(np.swapaxes(s_, 1, 2)), dtype=dt).transpose(1, 2)),
+                      ('channel-major (C,N,L) storage', torch.tensor(np.ascontiguousarray(np.swapaxes(s_, 0, 1)), dtype=dt).transpose(0, 1))]
+            with torch.no_grad():
+                ref1 = flat(f1(ts)); p1 = f1(ts); refi1 = i1(p1)
+            for name, v in views1:
+                with torch.no_grad():
+                    got = flat(f1(v))
+                if not all(u.shape == w.shape and float((u - w).abs().max()) <= tol * max(1.0, float(w.abs().max())) for u, w in zip(got, ref1)):
+                    ck.fail('DWT1DForward(db3, %s, J=2, %s): input given as %s gives different values than its contiguous copy' % (mode, dt, name), {'oracle': 'layout-modes', 'mode': mode, 'view': name}); return 'diff'
+            lo = p1[0]
+            vlo = torch.tensor(np.ascontiguousarray(np.swapaxes(lo.numpy(), 1, 2)), dtype=dt).transpose(1, 2)
+            with torch.no_grad():
+                got = i1((vlo, p1[1]))
+            if got.shape != refi1.shape or float((got - refi1).abs().max()) > tol * max(1.0, float(refi1.abs().max())):
+                ck.fail('DWT1DInverse(db3, %s, %s): time-major lowpass gives different values than its contiguous copy' % (mode, dt), {'oracle': 'layout-modes', 'mode': mode, 'view': 'time-major'}); return 'diff'
+            ck.oracle_ok(('layout-modes', mode, str(dt)), group='strided')
+    return None
+
+
 def run(ck):
     from ..translate import regen_all
     rt.setup_torch()
@@ -328,6 +378,7 @@ def run(ck):
         # CURRENT state, it does not re-derive anything from construction time
         from .. import adoption
         rt.guard(ck, adoption.run, ck, ('load-double', 'f32-double-load'))
+        rt.guard(ck, oracle_layout_modes, ck)
     finally:
         torch.set_default_dtype(old)
 
